@@ -1,0 +1,22 @@
+//go:build !verif
+
+// Package verifhook provides verification-only instrumentation points.
+// Without the `verif` build tag every function is an empty no-op.
+package verifhook
+
+import "os"
+
+// Enabled reports whether the package was built with the verif tag.
+const Enabled = false
+
+// Yield marks a decision point (no-op without the verif tag).
+func Yield(point string, args ...any) {}
+
+// Trace records an event (no-op without the verif tag).
+func Trace(event string, kv ...any) {}
+
+// Tracing reports whether a trace hook is installed.
+func Tracing() bool { return false }
+
+// FileOp announces a storage file operation (no-op without the verif tag).
+func FileOp(kind string, f *os.File, path string, data []byte) error { return nil }
